@@ -160,7 +160,7 @@ def judge_shards(module, cfg, shard_paths, *, jvms=4, workers=4, env=None, timeo
         e = dict(env or {})
         e["TRACE_FILE"] = str(pth)
         r = run_tlc(module, cfg, workers=workers, env=e, timeout=timeout, heap=heap,
-                    tag=f"{module}.{Path(pth).stem}")
+                    tag=f"{module}.{Path(pth).stem}.{os.getpid()}.{time.time_ns() % 10**9}")
         require_clean(r, f"judging {pth}")
         return r
 
